@@ -158,6 +158,8 @@ class CliEnv(C.CsrEnv):
             return one(Opt(z3.BoolVal(bool(idx)), None))
         if re.match(r"^<&str as TryInto<(rcgen::)?(string::)?PrintableString>>::try_into$", c):
             return result(z3.Bool("country_is_printable"), Opaque("printable", path_of(args[0])), "printable")
+        if re.match(r"^Vec::<(rcgen::)?(KeyUsagePurpose|ExtendedKeyUsagePurpose|SanType)>::(new|with_capacity)$", c):
+            return one(ListV([]))
         if re.match(r"^Vec::<(rcgen::)?(KeyUsagePurpose|ExtendedKeyUsagePurpose|SanType)>::push$", c):
             cell = args[0].cell
             cell.v = ListV(cell.v.items + [args[1]])
